@@ -164,3 +164,55 @@ func VH_C03_table() {
 	}
 	vLog("visits", m.visits)
 }
+
+// nodes need not be pointers: a Node implemented on a value receiver (an enum-like int, an empty
+// struct) is routed like any other — including the value that happens to be its type's zero value
+var c03Vals [3]*c03Probe
+
+type c03Val int
+
+func (v c03Val) Prep(ctx context.Context, s *SharedStore) (any, error) { return c03Vals[v].Prep(ctx, s) }
+func (v c03Val) Exec(ctx context.Context, p any) (any, error)          { return nil, nil }
+func (v c03Val) Post(ctx context.Context, s *SharedStore, p, e any) (Action, error) {
+	return c03Vals[v].Post(ctx, s, p, e)
+}
+
+type c03Empty struct{}
+
+func (c03Empty) Prep(ctx context.Context, s *SharedStore) (any, error) { return c03Vals[2].Prep(ctx, s) }
+func (c03Empty) Exec(ctx context.Context, p any) (any, error)          { return nil, nil }
+func (c03Empty) Post(ctx context.Context, s *SharedStore, p, e any) (Action, error) {
+	return c03Vals[2].Post(ctx, s, p, e)
+}
+
+func VH_C03_valueNodes() {
+	vUnwind(12)
+	m := &c03Mon{limit: vParam("L", 3), store: NewSharedStore()}
+	nodes := []any{Node(nil), Node(c03Val(0)), Node(c03Val(1)), Node(c03Empty{})}
+	for i := 0; i < 3; i++ {
+		c03Vals[i] = &c03Probe{id: i, m: m}
+		m.ref[i][0], m.ref[i][1] = -2, -2
+	}
+	start := vNondet[int]("start")
+	vAssume(0 <= start && start < 3)
+	flow := NewFlow(vPick(start+1, nodes...).(Node))
+	for i := 0; i < 3; i++ {
+		if vNondet[bool]("connected") {
+			t := vNondet[int]("target")
+			vAssume(0 <= t && t <= 3)
+			flow.Connect(nodes[i+1].(Node), c03A0, asNode(vPick(t, nodes...)))
+			m.ref[i][0] = t - 1
+		}
+	}
+	m.expected = start
+	err := flow.Run(vNewCtx(), m.store)
+	vAssert(err == nil, "routing-never-fails")
+	vAssert(m.expected == c03End, "flow-ends-exactly-where-the-table-ends")
+	vAssert(m.visits >= 1, "start-node-runs")
+	if m.perNode[0] > 0 {
+		vCover("zero-valued-int-node-visited")
+	}
+	if m.perNode[2] > 0 {
+		vCover("empty-struct-node-visited")
+	}
+}
